@@ -290,6 +290,12 @@ func stress12Main(args []string) {
 			seed, _ = strconv.ParseInt(args[i+1], 10, 64)
 		}
 	}
+	// a run that does not come back (every worker blocked in the library) is a deadlock, not a hang of the check
+	go func() {
+		time.Sleep(dur + 45*time.Second)
+		fmt.Printf("stress12: FAIL deadlock: the run did not finish within %v + 45s (workers blocked in the library)\n", dur)
+		os.Exit(1)
+	}()
 	os.Exit(stress12(dur, workers, seed, maxRounds))
 }
 
